@@ -127,6 +127,23 @@ func init() {
 					emit(L(A("enc.dec"), A(name), I(units), X(m[:r.Intn(len(m))])))
 				}
 			}
+			// one outsider at every position of an otherwise in-domain value of every length 1..40 (word-at-a-time
+			// and unrolled scanners have their blind spots at particular lengths and offsets, seeded change C07-i)
+			if len(out) > 0 {
+				for ln := 1; ln <= 40; ln++ {
+					for pos := 0; pos < ln; pos++ {
+						v := make([]byte, ln)
+						for i := range v {
+							v[i] = in[(i+ln)%len(in)]
+						}
+						v[pos] = out[(ln+pos)%len(out)]
+						emit(L(A("enc.enc"), A(name), X(v)))
+						if name == "ASCII" || name == "EBCDIC1047" {
+							emit(L(A("enc.dec"), A(name), I(ln), X(append(v, 0x41, 0x42, 0x43)[:ln+(pos%4)])))
+						}
+					}
+				}
+			}
 			// adversarial lengths
 			for _, dl := range []int{-1 << 63, -2, 1 << 31, 1<<31 - 1, 1<<62 + 1, 1<<63 - 1, 1<<63 - 2, 1 << 40} {
 				emit(L(A("enc.dec"), A(name), I(dl), X(r.Bytes(r.Intn(9)))))
@@ -267,6 +284,19 @@ func init() {
 		case "ASCII", "Binary", "EBCDIC":
 			if len(dec) != n || read != n {
 				add("dec-units", "decoded value does not have the requested number of units")
+			}
+			if name == "ASCII" {
+				// never a wrong value: ASCII text is the bytes themselves, and only bytes 0..127 are ASCII
+				for i, c := range dec {
+					if c > 127 {
+						add("dec-accepts-out-of-domain", "Decode accepted a byte above 127 as ASCII")
+						break
+					}
+					if i < len(d) && c != d[i] {
+						add("dec-wrong-value", "decoded ASCII text is not the input bytes")
+						break
+					}
+				}
 			}
 		case "BCD", "LBCD":
 			if len(dec) != n || read != (n+1)/2 {
